@@ -714,7 +714,17 @@ impl<'a, 'b> Gen<'a, 'b> {
                     Some(Stmt::Assign { id, lhs, op: AssignOp::Var, rhs, reversed: false })
                 } else {
                     let ix = self.index_expr(n, 1);
-                    let (rhs, d) = self.expr_tracked(2);
+                    let (rhs, d) = if self.p.call_bias > 0 && !self.p.helpers.is_empty() && self.t.chance(self.p.call_bias * 2) {
+                        // `a[k] = h(e, ..)` with compound arguments: an element without a degree of its own
+                        let (name, arity) = self.p.helpers[self.t.below(self.p.helpers.len())].clone();
+                        let saved = std::mem::replace(&mut self.saw_data, false);
+                        let args = (0..arity).map(|_| self.expr(1)).collect();
+                        let d = self.saw_data;
+                        self.saw_data = saved || d;
+                        (Expr::Call { id: self.ids.next(), name, args }, d)
+                    } else {
+                        self.expr_tracked(2)
+                    };
                     self.taint(v.key, d);
                     if self.p.compound && self.t.chance(50) {
                         let op = *self.t.pick(&[Op::Add, Op::Sub, Op::Mul]);
